@@ -95,7 +95,7 @@ func c12BuildLate(n, li, lj int) *c12Net {
 	}
 	// hop limit: unlimited, or exactly the largest distance a connected topology of n agents can have
 	cfg := DefaultFloodConfig()
-	if verif_nondet_bool() {
+	if c12HopLimit && verif_nondet_bool() {
 		cfg.MaxHops = n - 1
 	}
 	for i := 0; i < n; i++ {
